@@ -430,6 +430,9 @@ type stepStats struct {
 
 // runSeq executes a case; the returned error is a violation of the property.
 func runSeq(cs seqCase, st *stepStats) (err error) {
+	if wedged.Load() {
+		return nil // see wedged: nothing can be judged in this process any more
+	}
 	e := getEnv()
 	e.reset(cs.Syncing)
 	serial := 0
